@@ -213,6 +213,12 @@ def _controls(draw):
         section[d.choice(["unknown_key", "schema_pat", "x-y", "plugins_"])] = d.choice([1, "v", [1], {"a": 1}])
     if d.bool(0.3):
         section["files_to_include"] = ["my_base.py"]
+    if d.bool(0.4):
+        # header values: literal and environment references (resolved when the settings are read)
+        section["remote_schema_headers"] = d.choice([
+            {"Authorization": "$VF_SET_VAR"}, {"X-Plain": "v", "Authorization": "$VF_SET_VAR"}, {"X-Plain": "v"},
+            {"A": "$VF_SET_VAR", "B": "$VF_SET_VAR2"}])
+        section["remote_schema_verify_ssl"] = d.choice([True, False])
     top_extra = {"other-tool": {"x": 1}} if d.bool(0.5) else {}
     return {"kind": "control", "section": section, "top_extra": top_extra, "strategy": d.choice(["client", "client", "graphqlschema"]),
             "state": d.choice(DIR_STATES), "label": "control"}
@@ -285,6 +291,8 @@ def run_case(case, scratch):
 
     os.environ.pop("VF_NOT_SET_VAR", None)
     os.environ["VF_EMPTY_VAR"] = ""
+    os.environ["VF_SET_VAR"] = "Bearer tok"
+    os.environ["VF_SET_VAR2"] = "second"
     strategy_name = case["strategy"]
     base_section = {"schema_path": "schema.graphql"}
     if strategy_name == "client":
